@@ -117,6 +117,7 @@ class NDInterp(Interp):
         m['cross'] = Builtin('np.cross', s.np_cross)
         m['cumsum'] = Builtin('np.cumsum', s.np_cumsum)
         m['rot90'] = Builtin('np.rot90', s.np_rot90)
+        m['pad'] = Builtin('np.pad', s.np_pad)
         m['linalg'] = Module('linalg', {'norm': Builtin('norm', s.np_norm)})
         m['power'] = Builtin('np.power', lambda a, k: s.map2(lambda x, y: s.uf_app('power', x, y), s.asarr(a[0]), s.asarr(a[1])))
         m['arccos'] = Builtin('np.arccos', lambda a, k: s.map1(lambda x: s.uf_app('arccos', x), a[0]))
@@ -1033,7 +1034,19 @@ class NDInterp(Interp):
         for j in ax:
             cnt = s.arith('*', cnt, arr.shape[j])
 
+        farr = arr.frozen()
+
         def get(idx):
+            if getattr(s, 'valuation', None) is not None and all(isinstance(d, int) for d in farr.shape):
+                # concrete data (replay / cross-check / conformance): the sum itself
+                tot = fractions.Fraction(0)
+                for red in itertools.product(*[range(farr.shape[j]) for j in ax]):
+                    full, ri, ki = [], iter(red), iter(idx)
+                    for j in range(len(farr.shape)):
+                        full.append(next(ri) if j in ax else next(ki))
+                    x = farr.at(s, full)
+                    tot += fractions.Fraction(tofloat_(x)) if not isinstance(x, fractions.Fraction) else x
+                return tot / (cnt if kind == 'mean' else 1)
             v = Sym(G(*[I(i) for i in idx]) if idx else G(), 'float', True)
             if kind == 'mean':
                 return s.arith('/', v, s.to_float(cnt))
@@ -1072,6 +1085,14 @@ class NDInterp(Interp):
         # [A] np.cumsum: out[..k..] = P(k+1) with the ghost prefix sum P(0)=0, P(j+1)=P(j)+a[j] (instantiated at use)
 
         def get(idx):
+            if getattr(s, 'valuation', None) is not None and all(isinstance(i, int) or is_conc_num(i) for i in idx):
+                tot = fractions.Fraction(0)
+                for t in range(int(tofloat_(idx[axis])) + 1):
+                    ii = list(idx)
+                    ii[axis] = t
+                    x = arr.at(s, ii)
+                    tot += fractions.Fraction(tofloat_(x)) if not isinstance(x, fractions.Fraction) else x
+                return tot
             up = list(idx)
             up[axis] = s.arith('+', idx[axis], 1)
             lo = list(idx)
@@ -1085,6 +1106,79 @@ class NDInterp(Interp):
         out = s.fresh_buf(arr.shape, get, 'float', 'cumsum')
         out.ghost_prefix = (P, axis, arr)
         return out
+
+    def np_pad(s, a, k):
+        """[A] np.pad(arr, ((a0, b0), ...), mode=): a fresh array of shape n_j + a_j + b_j with
+        out[i] = arr[src(i - a)] where, per axis, src(t) = t inside [0, n) and outside it
+          constant: the fill value (default 0)      edge: clip(t, 0, n-1)       wrap: t mod n
+          symmetric: n-1-t' / -1-t (mirror incl. the edge)   reflect: mirror excl. the edge   (both only for widths <= n / n-1)"""
+        arr = a[0]
+        widths = a[1] if len(a) > 1 else k.get('pad_width')
+        mode = k.get('mode', a[2] if len(a) > 2 else 'constant')
+        if not isinstance(arr, NDArr) or not isinstance(mode, str):
+            raise Unsupported('np.pad of non-array / callable mode')
+        if mode not in ('constant', 'edge', 'wrap', 'symmetric', 'reflect'):
+            raise Unsupported(f'np.pad mode {mode}')
+        extra = {kk for kk in k if kk not in ('mode', 'pad_width', 'constant_values')}
+        if extra:
+            raise Unsupported(f'np.pad keyword {sorted(extra)}')
+        fill = k.get('constant_values', 0)
+        if not (is_conc_num(fill) or isinstance(fill, (Sym, bool))):
+            raise Unsupported('np.pad constant_values per axis')
+        arr = arr.frozen()
+        ws = [list(s.iter_(w)) for w in s.iter_(widths)]
+        if len(ws) != len(arr.shape) or any(len(w) != 2 for w in ws):
+            raise PyRaise('ValueError', note='pad_width must be one (before, after) pair per axis')
+        ws = [[s.pyscalar(x) for x in w] for w in ws]
+        for w in ws:
+            for x in w:
+                if isinstance(x, Sym):
+                    if x.kind != 'int':
+                        raise PyRaise('TypeError', note='pad_width must be of integral type')
+                    if s.decide(I(x) >= 0) is not True:
+                        if not s.branch(I(x) >= 0):
+                            raise PyRaise('ValueError', note="index can't contain negative values")
+                elif isinstance(x, bool) or not isinstance(x, int):
+                    raise PyRaise('TypeError', note='pad_width must be of integral type')
+                elif x < 0:
+                    raise PyRaise('ValueError', note="index can't contain negative values")
+        shape = [s.arith('+', s.arith('+', n, w[0]), w[1]) for n, w in zip(arr.shape, ws)]
+        if mode in ('symmetric', 'reflect'):
+            for n, w in zip(arr.shape, ws):
+                lim = n if mode == 'symmetric' else s.arith('-', n, 1)
+                for x in w:
+                    c = s.cmp('<=', x, lim)
+                    if c is not True and (c is False or s.decide(B(c)) is not True):
+                        raise Unsupported(f'np.pad mode {mode} with a width larger than the array (repeated reflection)')
+        conv = {'bool': s.asbool, 'int': s.trunc_int, 'float': s.to_float, 'complex': (lambda x: x)}[arr.dtype]
+
+        def get(idx):
+            src, inside = [], True
+            for i, n, w in zip(idx, arr.shape, ws):
+                t = s.arith('-', i, w[0]) if not (isinstance(w[0], int) and w[0] == 0) else i
+                nopad = all(isinstance(x, int) and x == 0 for x in w)
+                if nopad:
+                    src.append(t)
+                    continue
+                lo_ok, hi_ok = s.cmp('>=', t, 0), s.cmp('<', t, n)
+                ok = s.and_(lo_ok, hi_ok)
+                if mode == 'constant':
+                    inside = s.and_(inside, ok)
+                    # any in-range index serves where the fill value is used (never read there)
+                    src.append(s.ite(ok, t, 0) if ok is not True else t)
+                elif mode == 'edge':
+                    src.append(s.ite(lo_ok, s.ite(hi_ok, t, s.arith('-', n, 1)), 0))
+                elif mode == 'wrap':
+                    src.append(s.arith('%', t, n) if not (isinstance(t, int) and isinstance(n, int)) else t % n)
+                elif mode == 'symmetric':
+                    src.append(s.ite(lo_ok, s.ite(hi_ok, t, s.arith('-', s.arith('-', s.arith('*', 2, n), 1), t)), s.arith('-', s.neg(t), 1)))
+                else:
+                    src.append(s.ite(lo_ok, s.ite(hi_ok, t, s.arith('-', s.arith('-', s.arith('*', 2, n), 2), t)), s.neg(t)))
+            v = arr.at(s, src)
+            if mode == 'constant' and inside is not True:
+                return s.ite(inside, v, conv(fill))
+            return v
+        return s.fresh_buf(shape, get, arr.dtype, 'pad')
 
     def np_rot90(s, a, k):
         arr = a[0]
